@@ -1123,6 +1123,9 @@ def tree_units(prop, tier):
         add("table text: whitespace and non-whitespace runs", ["<table>", W2, "<tr>", W2, "<td>", W1, "</table>", W1], R)
         add("template contents", ["<template>", W1, "<", N2, ">", W1, "</template>", W1, "<template><template>", W1], R)
         add("body replaced by frameset", ["<body>", W1, "<", N1, ">", "<frameset>", W1], R)
+        add("body removed from between siblings (comments after </body>, then frameset)", ["<html><head></head></body><!--a-->", W1, "<!--b--><!--c-->", "<frameset>", W1], R)
+        add("body removed with a symbolic tag after </body>", ["</body><!--a--><!--b--><", N2, ">", W1, "<frameset>"], R)
+        add("removal from the middle: re-parenting into a table cell / misnested formatting with following siblings", ["<div><a>1<p>2</a>3<i>4</i>5<", N1, ">6</", N1, ">"], R)
         add("comments and doctype", ["<!--", 1, "-->", "<!DOCTYPE ", N1, ">", "<!--", 1, "-->", W1, "<!--x-->"], R)
         add("text split by NUL, newline swallowed after <pre>", ["<pre>", 2, "</pre>x"], R)
         add("text split by NUL, newline swallowed after <textarea>", ["<p>a<textarea>", 2, "</textarea>"], R)
